@@ -37,8 +37,12 @@ def make_value(kind, v):
         if v in falsy and kind != 'json':
             return falsy[v]   # falsy, but not None: storable also when allow_nones=False
         return {'id': v, 'text': 'é🙂' * v, 'nested': [v, None, {'a': 1.5, 'b': [True, False]}], 'big': 2 ** 53 + v}
-    if kind == 'numpy':
-        return np.arange(v + 2) * 1.5
+    if kind == 'numpy':      # 0-d, 1-d and 2-d arrays of different dtypes
+        if v % 3 == 0:
+            return np.array(v * 1.5)
+        if v % 3 == 1:
+            return np.arange(v + 2) * 1.5
+        return (np.arange(6).reshape(2, 3) + v).astype('int16')
     return pd.DataFrame({'a': [v, v + 1], 'b': ['x', str(v)]})
 
 
@@ -163,6 +167,24 @@ def _special(_):
             pass
         if c2.get('k') is not tc.NO_VALUE and c2.filepath('k').exists():
             pass
+        # an entry written by one process is read by another whose locale is not UTF-8 (LC_ALL=C): same value, no recompute
+        import subprocess
+        import sys
+        key, val = 'klíč 🙂', {'text': 'žluťoučký kůň 🙂', 'n': 1}
+        c3 = tc.JsonCache(root / 'c')
+        c3.get_or_compute(key, lambda: val)
+        prog = ('import sys, json; sys.path[:0] = json.loads(sys.argv[1]); import taskchain.cache as tc\n'
+                'c = tc.JsonCache(sys.argv[2]); calls = []\n'
+                'key, val = json.loads(sys.argv[3])\n'
+                'got = c.get(key); again = c.get_or_compute(key, lambda: calls.append(1) or val)\n'
+                'print(json.dumps([got == val, again == val, len(calls)]))')
+        env = dict(os.environ, LC_ALL='C', LANG='C', PYTHONUTF8='0', PYTHONCOERCECLOCALE='0', PYTHONWARNINGS='ignore')
+        p = subprocess.run([sys.executable, '-c', prog, json.dumps([x for x in sys.path if x]), str(root / 'c'), json.dumps([key, val])],
+                           env=env, capture_output=True, text=True, timeout=120)
+        line = (p.stdout.strip().splitlines() or [''])[-1]
+        if line != '[true, true, 0]':
+            out.append(('locale', f'an entry with non-ASCII text, read by a process with LC_ALL=C: [get returns the value, '
+                                  f'get_or_compute returns it, computer calls] = {line or p.stderr[-200:]}'))
     finally:
         shutil.rmtree(root, ignore_errors=True)
     return out
